@@ -67,6 +67,8 @@ ob("O-C05-length", ["C05"], J, "c05_num_length", "Num::length (absolute value) i
 
 # point obligations: the big-integer arms at concrete boundary values
 ob("O-C08-big", ["C08"], J, "c08_big_points", "points: a big integer against +/-infinity and a small float in both argument orders; 5 as Int / BigInt / Float and 0 as Int / BigInt mutually equal, ordered Equal and hashing alike; big integers beyond the machine range ordered among themselves and against isize::MAX / MIN", [NUM + "Num::cmp", NUM + "Num::eq", NUM + "Num::hash"], label="point", kind="point", composes_dependency=True)
+ob("O-C08-big-big", ["C08"], J, "c08_big_cmp_big", "two big integers of any value up to 128 bits: cmp is the mathematical order and == is equality of values (integers beyond 2^53 compared among integers)", [NUM + "Num::cmp", NUM + "Num::eq"], composes_dependency=True, tier="thorough", timeout=3000)
+ob("O-C08-big-inf", ["C08"], J, "c08_big_cmp_inf", "a big integer of any value up to 128 bits against +/-Infinity, in both argument orders: -Infinity < every integer < Infinity, never equal", [NUM + "Num::cmp", NUM + "Num::eq"], composes_dependency=True, tier="thorough", timeout=3000)
 ob("O-C09-big-obs", ["C09", "C10"], J, "c09_big_observers", "for every big integer up to 128 bits: is_int; as_isize is Some(value) iff it fits a machine integer; as_pos_usize is (value >= 0, |value|) with zero non-negative, None beyond usize; a big integer that fits agrees with the machine integer of the same value (equal integers behave identically however stored)", [NUM + "Num::is_int", NUM + "Num::as_isize", NUM + "Num::as_pos_usize"], composes_dependency=True)
 ob("O-C09-from-integral", ["C09", "C14"], J, "c09_from_integral", "Num::from_integral / Val::from(usize): a machine integer when the value fits, else the big integer of exactly that value, for every u64, i128 and usize", [NUM + "Num::from_integral", LIB + "Val::from<usize>"], composes_dependency=True)
 ob("O-C09-big-points", ["C09"], J, "c09_big_points", "points: as_f64 of big 5 / -1, length (absolute value) of big -1 and -2^63-1, 2^70 is beyond every machine-sized observer", [NUM + "Num::as_f64", NUM + "Num::length"], label="point", kind="point", composes_dependency=True)
@@ -164,7 +166,7 @@ CFG = {
         "C08": {
             "level": "proof",
             "explanation": "Order axioms, eq/cmp coherence, agreement with the mathematical order, and hash coherence (over the byte stream fed to any hasher) of the real Num::{cmp,eq,hash} and float_cmp, for all machine integers and all non-NaN floats (pairs and triples), one harness per combination of kinds. Loop-free (hash loops closed by unwinding assertions), hence complete.",
-            "not_decided": "BigInt and Dec kinds (num-bigint cannot be executed symbolically); Val-level kind sequence, strings, arrays, objects; sort/unique/group_by/bsearch/array subtraction using this order (std sort, BTreeSet, binary_search assumed correct given a total order); indexmap lookup given coherent Eq/Hash",
+            "not_decided": "Dec kinds; big integers beyond 128 bits, against finite floats and in hashing beyond the points of O-C08-big (BigInt::to_f64 on a symbolic value is modelled by CBMC through an unconstrained powi, which gives spurious failures), machine integer against big integer beyond the points (timeout); Val-level kind sequence, strings, arrays, objects; sort/unique/group_by/bsearch/array subtraction using this order (std sort, BTreeSet, binary_search assumed correct given a total order); indexmap lookup given coherent Eq/Hash",
             "assumptions": ["the property's own domain restriction is applied: NaN excluded; integers beyond 2^53 compared only among integers or against infinities"],
         },
         "C09": {
